@@ -12,6 +12,11 @@ configuration    `le` = little-endian host, default build; `be` = little-endian 
 ops              enc cfg ty val            -> bytes <hex>
                  dec cfg ty hex            -> ok <val> rest <n> | fail
                  rt cfg ty val resthex     -> ok <val> rest <n> | fail
+                 rtd cfg ty val dest resthex / decd cfg ty dest hex
+                                           -> as rt / dec; `dest` is the value the C++ destination object
+                                              holds before the read.  The model's `decode` is a function of the
+                                              bytes only, so `dest` is parsed (a malformed one is `bad-op`) and
+                                              otherwise ignored: the result must not depend on it
                  truncall cfg ty val       -> trunc <one letter per strict prefix: F = Read returned false>
                  seq cfg ty1 val1 …        -> ok <val1> … rest <n> | fail <index>
 decoded values are printed canonically (unordered containers sorted by element text).
@@ -275,6 +280,22 @@ def step (_ : Unit) : List String → Unit × String
       if !supported c t then ((), "bad-op") else
       match valOf t vs with
       | some v => ((), showDec t (decode c t (encode c t v ++ rest)))
+      | none => ((), "bad-op")
+    | _, _, _ => ((), "bad-op")
+  | ["rtd", cs, ts, vs, ds, hs] =>
+    match cfgOf cs, tyOf ts, bytesOfHex hs with
+    | some c, some t, some rest =>
+      if !supported c t then ((), "bad-op") else
+      match valOf t vs, valOf t ds with
+      | some v, some _ => ((), showDec t (decode c t (encode c t v ++ rest)))
+      | _, _ => ((), "bad-op")
+    | _, _, _ => ((), "bad-op")
+  | ["decd", cs, ts, ds, hs] =>
+    match cfgOf cs, tyOf ts, bytesOfHex hs with
+    | some c, some t, some bs =>
+      if !supported c t then ((), "bad-op") else
+      match valOf t ds with
+      | some _ => ((), showDec t (decode c t bs))
       | none => ((), "bad-op")
     | _, _, _ => ((), "bad-op")
   | ["truncall", cs, ts, vs] =>
